@@ -24,7 +24,10 @@ def main(dirs):
         res = list(ex.map(seeded_eval.run_one, [d for d, _ in good]))
     for (d, v), r in zip(good, res):
         meta = json.load(open(os.path.join(d, 'meta.json')))
-        sid = d.replace('/tmp/agents/out_', '').replace('/', '-')
+        if d.startswith('/tmp/agents2/out_'):
+            sid = d.replace('/tmp/agents2/out_', '').replace('/m', '-n')        # second round: Cxx-n1..n3
+        else:
+            sid = d.replace('/tmp/agents/out_', '').replace('/', '-')
         dst = os.path.join(out_root, sid)
         os.makedirs(dst, exist_ok=True)
         shutil.copy(os.path.join(d, 'patch.diff'), dst)
@@ -35,7 +38,8 @@ def main(dirs):
                  origin='independent sub-agent given only the property text and a scratch worktree of /repo',
                  confirmed=dict(how='scratch worktree of /repo HEAD: demo.py on the clean tree, git apply patch.diff, demo.py again, full pytest suite',
                                 demo_clean_exit=v['clean_exit'], demo_with_change_exit=v['mut_exit'], tests=v['tests'], tests_failed=v['failed'].strip()),
-                 detection=dict(reported_by=fired, analysis_incomplete=inc, status='caught' if fired else ('incomplete (exit 2)' if inc else 'missed')))
+                 detection=dict(reported_by=fired, analysis_incomplete=inc, status='caught' if fired else ('incomplete (exit 2)' if inc else 'missed')),
+                 first_evaluation=dict(status='caught' if fired else ('incomplete (exit 2)' if inc else 'missed'), reported_by=fired))
         json.dump(m, open(os.path.join(dst, 'meta.json'), 'w'), indent=1)
         print(sid, m['detection']['status'], sorted(fired))
 
